@@ -50,7 +50,7 @@ def main():
             h = s.cc(os.path.join(VERIF, "harness/c16_trigger.c"), os.path.join(s.dir, "h_c16"),
                      extra="%s/harness/sim.c %s %s %s %s -lpthread -ldl" % (VERIF, o1, o2, o3, o4))
             drv = driver_path("drv_c16")
-            nrand, ndfs = (250, 150) if c.tier == "quick" else (4000, 20000)
+            nrand, ndfs = (250, 150) if c.tier == "quick" else (4000, 7000)
             hsel = s.cc(os.path.join(VERIF, "harness/c16_selprep.c"), os.path.join(s.dir, "h_c16sel"),
                         extra="%s/harness/sim.c %s %s %s %s -lpthread -ldl" % (VERIF, o1, o2, e1, e2))
             cmds = []
@@ -80,7 +80,10 @@ def main():
                         corpus_sel = os.path.join(s.dir, "corpus_scen.txt"); open(corpus_sel, "w").write("\n".join(cscen) + "\n")
                 cmds.append("%s 0 100000 %d 0 1" % (h, c.seed))                       # one injector: exhaustive
                 cmds += ["%s 1 %d %d %d %d" % (h, nrand, c.seed, i, NCPU) for i in range(NCPU)]   # two injectors: random schedules
-                cmds += ["%s 2 %d %d %d %d" % (h, ndfs, c.seed, i, NCPU) for i in range(9)]       # two injectors: DFS, partitioned
+                if c.tier == "quick":
+                    cmds += ["%s 2 %d %d %d %d" % (h, ndfs, c.seed, i, NCPU) for i in range(9)]   # two injectors: DFS, partitioned by the first two decisions
+                else:                                                                             # thorough: by the first three (27 subtrees: even load on the cores)
+                    cmds += ["%s 3 %d %d %d %d" % (h, ndfs, c.seed, i, 27) for i in range(27)]
             outs = run_pipeline(cmds, drv) if cmds else []
             stats, samples, disagree, oracle, errors = parse_driver_output(outs)
             # select-preparation leg: the daemon scenarios of qsend.c with a snapshot of the daemon's globals at every select
@@ -151,7 +154,7 @@ def main():
                      "between selects: queues of three and more entries with distinct due times, entries leaving and coming back), SIGALRM/SIGHUP/SIGTERM that INTERRUPT a select (EINTR after "
                      "0..999 permille of the timeout, nothing else happening at that call) at selects drawn from the whole run, clean stops/crashes followed by a restart on the deferred queue, "
                      "and interrupt sweeps (base run, then one run per select point - every idle select with messages queued, every select next to a command/report/arrival, every 16th other - "
-                     "with SIGALRM/SIGHUP interrupting exactly that select). non-trivial = distinct schedule / scenario" % ("capped at 150 schedules per partition in the quick tier" if c.tier == "quick" else "capped at 20000 schedules per partition"))
+                     "with SIGALRM/SIGHUP interrupting exactly that select). non-trivial = distinct schedule / scenario" % ("capped at 150 schedules per partition in the quick tier" if c.tier == "quick" else "thorough tier: partitioned by the first three decisions, capped at 7000 schedules in each of the 27 partitions"))
     c.cov["exhaustive"] = False
     c.cov["samples"] = samples[:6] or ["(none)"]
     c.cov["input_distribution"] = {k: v for k, v in stats.items() if k.startswith("ev_") or k.startswith("snap_") or k.startswith("daemon_")}
